@@ -7,6 +7,7 @@ use crate::{
     },
     reader::WriteXml,
 };
+use inflector::cases::pascalcase::to_pascal_case;
 use reqwest::Url;
 use std::{io, rc::Rc};
 
@@ -100,6 +101,8 @@ where
 {
     // generate an async fn for the operation
     let rust_fn_name = as_field_name(operation_name);
+    // the envelope types are declared under the PascalCase name of the operation
+    let operation_name = to_pascal_case(operation_name);
     let request_name = format!("{operation_name}InputEnvelope");
     let response_name = operation
         .output
